@@ -68,7 +68,7 @@ func pubUniverse(name string, n int, seed int64) *Universe {
 //	notresp  : two keys the keyper is responsible for and two it is not (keyper_set without it / missing)
 //	composed : as "startup", the hand-overs are made by the real eonPubKeyHandler tick (consecutive
 //	           hand-overs of a history = key generations that completed within one tick)
-//	retry    : (thorough) one failing attempt, the retry comes 12 s later
+//	retry    : one failing attempt, the retry comes 12 s later
 func PubPlans(thorough bool, seed int64) []PubPlan {
 	r, n, o := PubKey{Resp: true}, PubKey{Resp: false}, PubKey{Resp: true, Old: true}
 	plans := []PubPlan{
@@ -76,11 +76,11 @@ func PubPlans(thorough bool, seed int64) []PubPlan {
 		{Name: "pub-startup", U: pubUniverse("pub-startup", 3, seed+12), Keys: []PubKey{r, r, o}},
 		{Name: "pub-notresp", U: pubUniverse("pub-notresp", 4, seed+13), Keys: []PubKey{r, n, r, {Resp: false, Missing: true}}, Leaves: true},
 		{Name: "pub-composed", U: pubUniverse("pub-composed", 3, seed+14), Keys: []PubKey{r, r, o}, Composed: true},
+		{Name: "pub-retry", U: pubUniverse("pub-retry", 2, seed+16), Keys: []PubKey{r, r}, MaxFails: 1, Leaves: true},
 	}
 	if thorough {
 		plans = append(plans,
-			PubPlan{Name: "pub-four", U: pubUniverse("pub-four", 5, seed+15), Keys: []PubKey{r, r, r, o, o}, Leaves: true},
-			PubPlan{Name: "pub-retry", U: pubUniverse("pub-retry", 2, seed+16), Keys: []PubKey{r, r}, MaxFails: 1, Leaves: true})
+			PubPlan{Name: "pub-four", U: pubUniverse("pub-four", 5, seed+15), Keys: []PubKey{r, r, r, o, o}, Leaves: true})
 	}
 	return plans
 }
@@ -413,9 +413,9 @@ func (pw *pubWorld) eonKey(id int) keyper.EonPublicKey {
 }
 
 const (
-	pubStepWait  = 3 * time.Second
+	pubStepWait  = 2 * time.Second
 	pubRetryWait = 15 * time.Second
-	pubIdle      = 1500 * time.Millisecond
+	pubIdle      = 1000 * time.Millisecond
 )
 
 // run replays one history as a gated schedule and then lets the publisher run freely until it rests.
